@@ -46,6 +46,11 @@ type TxnProg struct {
 	// it (Commit fails with the commit-ts-lag error; on the async-commit / 1PC path before anything was prewritten);
 	// "near" - a constraint a few milliseconds ahead, which Commit waits for
 	CommitWait string `json:"commit_wait,omitempty"`
+	// AssertLevel ("" | fast | strict) and Asserts (key -> exist | notexist | unknown): the assertion level of the
+	// transaction and the assertion flags put on buffered keys right before Commit (what an SQL layer derives from
+	// what it read). An assertion that does not hold makes Commit fail with a definite error, nothing else.
+	AssertLevel string            `json:"assert_level,omitempty"`
+	Asserts     map[string]string `json:"asserts,omitempty"`
 }
 
 // TopoEvent is a scheduled topology change.
@@ -393,6 +398,41 @@ func genTxn(r *rand.Rand, id int, clients int, o genOpts, keys []string) TxnProg
 		p.End = "rollback"
 	}
 	return p
+}
+
+// addAsserts decorates a generated scenario (own random stream: the scenarios of a seed stay what they were): in a
+// third of the runs, most committing transactions get an assertion level and assertion flags on some of the keys they
+// write - true or false ones, the generator cannot know.
+func addAsserts(seed uint64, sc *Scenario) {
+	r := simkit.Rand(seed, "asserts")
+	if r.Intn(3) != 0 {
+		return
+	}
+	for i := range sc.Txns {
+		p := &sc.Txns[i]
+		if p.End != "commit" || r.Intn(10) < 3 {
+			continue
+		}
+		p.AssertLevel = pick(r, []string{"fast", "strict", "strict"})
+		if r.Intn(8) == 0 {
+			p.AssertLevel = "" // flags without a level: nothing may travel
+		}
+		seen := map[string]bool{}
+		for _, op := range p.Ops {
+			if op.Kind != "set" && op.Kind != "insert" && op.Kind != "delete" {
+				continue
+			}
+			k := op.Keys[0]
+			if seen[k] || r.Intn(10) < 3 {
+				continue
+			}
+			seen[k] = true
+			if p.Asserts == nil {
+				p.Asserts = map[string]string{}
+			}
+			p.Asserts[k] = pick(r, []string{"exist", "exist", "notexist", "notexist", "unknown"})
+		}
+	}
 }
 
 func genLayout(r *rand.Rand) (stores int, splits []string) {
